@@ -76,3 +76,23 @@ def close_wallet(w):
         w.session.bind.dispose() if getattr(w.session, 'bind', None) is not None else None
     except Exception:
         pass
+
+
+class deterministic_gc(object):
+    """WalletKey.__del__ closes the wallet's shared SQLAlchemy session. When the *cyclic* garbage collector happens to
+    run in the middle of a query the library raises InvalidRequestError at a random point - a timing accident, not a
+    function of the case. The cyclic collector is therefore switched off while a case runs (reference-counted
+    deletions still happen exactly where the code drops its objects) and run once between cases."""
+
+    def __enter__(self):
+        import gc
+        self._was = gc.isenabled()
+        gc.disable()
+        return self
+
+    def __exit__(self, *a):
+        import gc
+        gc.collect()
+        if self._was:
+            gc.enable()
+        return False
